@@ -52,7 +52,9 @@ class Gen:
             if self.val[g] > 0:
                 self.val[g] -= 1
                 self.lines.append("P %d acq %d" % k)
-            elif len(self.blocked) < NPROC - 1:
+            elif len(self.blocked) < NPROC - 1 and not any(self.h[k2][0] == g for k2 in self.blocked.values()):
+                # at most one blocked acquirer per semaphore: which of several waiters a release wakes is the kernel's choice,
+                # and the script must know whose completion to wait for (several waiters: drv_sem_conc)
                 self.lines.append("A %d acq %d" % k)
                 self.blocked[p] = k
         elif r < 0.75:
